@@ -27,6 +27,8 @@ INJECT = {
     "packet/src/bgp.rs": ["p_bgp"],
     "packet/src/rpki.rs": ["p_rpki"],
     "packet/src/bfd.rs": ["p_bfd"],
+    "packet/src/rd.rs": ["p_rd"],
+    "packet/src/mpls.rs": ["p_mpls"],
     "packet/src/bmp.rs": ["p_bmp"],
     "packet/src/mrt.rs": ["p_mrt"],
     "table/src/lib.rs": ["t_lib"],
